@@ -108,6 +108,11 @@ func HSKLayout() {
 // encoding, arbitrary IV, pad octets and (legal) pad length, textbook CBC, truncated HMAC.
 func VRefProtect(m *message.IKEMessage, km *VKeyMaterial, senderRole int, padlen int) []byte {
 	first, chain := message.VRefEncodeChain(m.Payloads, false, 0)
+	return VRefProtectChain(m.IKEHeader, first, chain, km, senderRole, padlen)
+}
+
+// VRefProtectChain: the same for an inner chain given as octets (first = type of its first payload).
+func VRefProtectChain(hdr *message.IKEHeader, first uint8, chain []byte, km *VKeyMaterial, senderRole int, padlen int) []byte {
 	plain := append([]byte{}, chain...)
 	plain = append(plain, vr.Bytes(padlen)...)
 	plain = append(plain, uint8(padlen))
@@ -117,7 +122,7 @@ func VRefProtect(m *message.IKEMessage, km *VKeyMaterial, senderRole int, padlen
 	icv := VIntegOutLen[km.Suite%3]
 	body := append(append([]byte{}, iv...), ct...)
 	item := message.VItem{Type: 46, Flags: 0, Body: append(body, make([]byte, icv)...)}
-	b := message.VAssembleFirst(m.IKEHeader, item, first)
+	b := message.VAssembleFirst(hdr, item, first)
 	tag := VSpecICV(km.Suite, ka, b[:len(b)-icv])
 	copy(b[len(b)-icv:], tag)
 	return b
